@@ -874,7 +874,7 @@ namespace awkward {
       return std::make_shared<UnmaskedArray>(
         Identities::none(),
         parameters_,
-        content_.get()->rpad(target, posaxis, depth));
+        content_.get()->rpad(target, posaxis, depth)).get()->simplify_optiontype();
     }
   }
 
@@ -893,7 +893,7 @@ namespace awkward {
       return std::make_shared<UnmaskedArray>(
         Identities::none(),
         parameters_,
-        content_.get()->rpad_and_clip(target, posaxis, depth));
+        content_.get()->rpad_and_clip(target, posaxis, depth)).get()->simplify_optiontype();
     }
   }
 
@@ -959,7 +959,7 @@ namespace awkward {
                                      recordlookup,
                                      parameters,
                                      posaxis,
-                                     depth));
+                                     depth)).get()->simplify_optiontype();
     }
   }
 
